@@ -15,13 +15,13 @@ B=$(ls -d ~/.rustup/toolchains/nightly-x86_64-unknown-linux-gnu/lib/rustlib/x86_
 mkdir -p "$D/prof" "$D/out"
 (cd "$ROOT/harness" && CARGO_TARGET_DIR="$D/target" RUSTFLAGS="-C instrument-coverage" CARGO_NET_OFFLINE=true \
    cargo +nightly build --offline >"$D/build.log" 2>&1) || { tail -20 "$D/build.log"; exit 2; }
-for c in "sys 120" "conn 1500" "sel 1200" "reg 112944" "codec 2500" "linkcc 6000" "classifier 5000" "control 4000" "reload 10000" "hub 20000"; do
+for c in "sys 120" "conn 1500" "sel 1200" "reg 112944" "codec 2500" "linkcc 6000" "classifier 5000" "control 4000" "reload 10000" "hub 20000" "e2e 48"; do
   set -- $c
   ( LLVM_PROFILE_FILE="$D/prof/$1-%p-%m.profraw" timeout 1800 "$D/target/debug/$1" run --seed 1 --cases "$2" --tier quick --out "$D/out/$1" >"$D/out/$1.log" 2>&1; echo "$1 rc=$?" ) &
 done
 wait
 "$B/llvm-profdata" merge -sparse "$D"/prof/*.profraw -o "$D/all.profdata"
-OBJS=""; for c in sys conn sel reg codec linkcc classifier control reload hub; do OBJS="$OBJS -object $D/target/debug/$c"; done
+OBJS=""; for c in sys conn sel reg codec linkcc classifier control reload hub e2e; do OBJS="$OBJS -object $D/target/debug/$c"; done
 "$B/llvm-cov" report $OBJS -instr-profile="$D/all.profdata" --ignore-filename-regex='(\.cargo|rustc|/verif/|rustup)' 2>/dev/null
 for f in src/sender/packet_handler.rs src/sender/housekeeping.rs src/sender/uplink_recv.rs src/sender/connections.rs src/sender/sequence.rs \
          crates/srtla-core/src/priority.rs crates/srtla-core/src/selection/enhanced.rs crates/srtla-core/src/registration/mod.rs \
